@@ -8,10 +8,15 @@
    block deltas over genesis).  [reach c gen ops] is the tracker state after ANY finite sequence
    of operations [ops] (new blocks, committedUpTo calls, the three phases of a commit taken
    apart, reloads, cache flushes / evictions, lookups, lookups by readers that stall between
-   their DB read and their cache write, the landing of such a write at ANY later time) under
-   ANY configuration [c] (lookback, cache on/off, cache sizes) with the repaired flush of the
-   base caches ([cf_fix c = true]: flushPendingWritesSince; for the original flushPendingWrites
-   the property is refuted below); [history_of ops] is the block history the sequence contains.
+   their DB read and their cache write, the landing of such a write at a later time) under ANY
+   configuration [c] (lookback, cache on/off, cache sizes); [history_of ops] is the block history
+   the sequence contains.
+   [lands_ok]: the code as it is (flushPendingWrites, [cf_fix c = false]) tolerates the late landing
+   of a held reader's cache write only while the DB round it was read at is still current or a
+   newer cache entry for the key is still in the base cache; without that the property is REFUTED
+   (C08_late_pending_refuted, finding late_pending_cache_write).  Runs without held readers
+   ([prompt]) and any run against the proposed flushPendingWritesSince ([cf_fix c = true],
+   fixes/proposed/C08.patch) meet the hypothesis (C08_*_with_proposed_fix, C08_prompt_runs).
    The only hypothesis is [wf_hist]: what the block evaluator guarantees about its deltas
    (distinct keys per round; a KV record's OldData is the previous value; a resource half is
    "nil and not deleted" only if it was absent) -- both special clauses are shown necessary. *)
@@ -29,7 +34,7 @@ Open Scope nat_scope.
    are only on absent rows, between the SQL transaction and postCommit the DB is exactly [off]
    rounds ahead and memory unchanged. *)
 Theorem C08_tracker_invariant : forall c gen ops,
-  cf_fix c = true -> wf_hist (genesis_world gen) (history_of ops) ->
+  lands_ok (init c gen) ops = true -> wf_hist (genesis_world gen) (history_of ops) ->
   Inv (genesis_world gen) (reach c gen ops) /\ Full (reach c gen ops) /\
   t_blocks (reach c gen ops) = history_of ops.
 Proof. exact reach_inv. Qed.
@@ -39,7 +44,7 @@ Print Assumptions C08_tracker_invariant.
    its SQL transaction and its postCommit), is the projection of the state obtained by applying
    exactly the blocks up to the requested round to genesis. *)
 Theorem C08_lookup_correct : forall c gen ops q,
-  cf_fix c = true -> wf_hist (genesis_world gen) (history_of ops) -> is_query q ->
+  lands_ok (init c gen) ops = true -> wf_hist (genesis_world gen) (history_of ops) -> is_query q ->
   out_is_ok (snd (step (reach c gen ops) q)) ->
   snd (step (reach c gen ops) q) = spec_out (genesis_world gen) (history_of ops) q.
 Proof. exact lookup_correct_lemma. Qed.
@@ -48,7 +53,7 @@ Print Assumptions C08_lookup_correct.
 (* Every round from the DB round to the latest block is served: a lookup there returns a value,
    except while the DB is ahead of memory, where it returns a value or waits (never an error). *)
 Theorem C08_lookup_total : forall c gen ops q,
-  cf_fix c = true -> wf_hist (genesis_world gen) (history_of ops) -> is_query q ->
+  lands_ok (init c gen) ops = true -> wf_hist (genesis_world gen) (history_of ops) -> is_query q ->
   servable (reach c gen ops) (q_rnd q) ->
   match t_phase (reach c gen ops) with
   | PCommitted _ => out_is_ok (snd (step (reach c gen ops) q)) \/ out_is_retry (snd (step (reach c gen ops) q))
@@ -60,7 +65,7 @@ Print Assumptions C08_lookup_total.
 (* The property's sentence: two runs over the same blocks -- whatever their flush schedules,
    cache configurations, evictions and restarts -- give the same answer to the same question. *)
 Theorem C08_schedule_independent : forall c1 c2 gen ops1 ops2 q,
-  cf_fix c1 = true -> cf_fix c2 = true ->
+  lands_ok (init c1 gen) ops1 = true -> lands_ok (init c2 gen) ops2 = true ->
   history_of ops1 = history_of ops2 ->
   wf_hist (genesis_world gen) (history_of ops1) -> is_query q ->
   out_is_ok (snd (step (reach c1 gen ops1) q)) -> out_is_ok (snd (step (reach c2 gen ops2) q)) ->
@@ -71,14 +76,14 @@ Print Assumptions C08_schedule_independent.
 (* None of the consistency panics of postCommit / produceCommittingTask / slice indexing is
    reachable, as long as committedUpTo is only called for rounds that exist. *)
 Theorem C08_no_panic : forall c gen ops,
-  cf_fix c = true -> wf_hist (genesis_world gen) (history_of ops) -> enabled_run (init c gen) ops ->
+  lands_ok (init c gen) ops = true -> wf_hist (genesis_world gen) (history_of ops) -> enabled_run (init c gen) ops ->
   Forall (fun r => r <> RPanic) (snd (run (init c gen) ops)).
 Proof. exact no_panic_reach. Qed.
 Print Assumptions C08_no_panic.
 
 (* The DB round never lags behind memory; a commit in flight covers in-memory rounds only. *)
 Theorem C08_phase_rounds : forall c gen ops,
-  cf_fix c = true -> wf_hist (genesis_world gen) (history_of ops) ->
+  lands_ok (init c gen) ops = true -> wf_hist (genesis_world gen) (history_of ops) ->
   let s := reach c gen ops in
   match t_phase s with
   | PIdle => t_dbr s = t_dbRound s
@@ -99,11 +104,32 @@ Theorem C08_spec_ok_is_statement : forall g h rnd a ci k ct,
 Proof. intros. repeat split. Qed.
 Print Assumptions C08_spec_ok_is_statement.
 
-(* ---------- the original flush of the base caches (flushPendingWrites, [cf_fix c = false]):
-   a cache write that lands late -- after a commit changed the key and the cache turned over --
-   plants a stale entry, and lookups then answer from it.  Replayed on the Go code by the harness
-   (signature late_pending_cache_write).  With flushPendingWritesSince the same schedule gives the
-   value the history dictates (an instance of C08_lookup_correct). ---------- *)
+(* ---------- who meets [lands_ok] ---------- *)
+Theorem C08_prompt_runs : forall ops s, prompt ops = true -> lands_ok s ops = true.
+Proof. exact lands_ok_prompt. Qed.
+Print Assumptions C08_prompt_runs.
+
+Theorem C08_lookup_correct_with_proposed_fix : forall c gen ops q,
+  cf_fix c = true -> wf_hist (genesis_world gen) (history_of ops) -> is_query q ->
+  out_is_ok (snd (step (reach c gen ops) q)) ->
+  snd (step (reach c gen ops) q) = spec_out (genesis_world gen) (history_of ops) q.
+Proof. exact lookup_correct_fixed_lemma. Qed.
+Print Assumptions C08_lookup_correct_with_proposed_fix.
+
+Theorem C08_schedule_independent_with_proposed_fix : forall c1 c2 gen ops1 ops2 q,
+  cf_fix c1 = true -> cf_fix c2 = true ->
+  history_of ops1 = history_of ops2 ->
+  wf_hist (genesis_world gen) (history_of ops1) -> is_query q ->
+  out_is_ok (snd (step (reach c1 gen ops1) q)) -> out_is_ok (snd (step (reach c2 gen ops2) q)) ->
+  snd (step (reach c1 gen ops1) q) = snd (step (reach c2 gen ops2) q).
+Proof. exact schedule_independent_fixed_lemma. Qed.
+Print Assumptions C08_schedule_independent_with_proposed_fix.
+
+(* ---------- the code as it is (flushPendingWrites, [cf_fix c = false]): a cache write that lands
+   late -- after a commit changed the key and the cache turned over -- plants a stale entry, and
+   lookups then answer from it.  Replayed on the Go code by the harness with a real reader
+   goroutine held after its SQL query (finding late_pending_cache_write).  The schedule violates
+   [lands_ok]; with flushPendingWritesSince it gives the value the history dictates. ---------- *)
 Theorem C08_late_pending_refuted :
   exists c gen ops rnd a v,
     cf_fix c = false /\
@@ -112,6 +138,9 @@ Theorem C08_late_pending_refuted :
     v <> ans_acct (state_at (genesis_world gen) (history_of ops) rnd) a.
 Proof. exact late_pending_refuted_lemma. Qed.
 Print Assumptions C08_late_pending_refuted.
+
+Example C08_late_ops_not_tolerated : lands_ok (init (late_cfg false) late_gen) late_ops = false.
+Proof. exact late_ops_not_tolerated. Qed.
 
 Example C08_late_pending_repaired :
   snd (step (reach (late_cfg true) late_gen late_ops) (OQAcct 2 1%N)) = RAcct (LOk (mkAcct 200%N 0%N 0%N)).
@@ -144,6 +173,8 @@ Print Assumptions C08_res_keep_needed.
    served by the base cache, one waiting), and reloads ---------- *)
 Example C08_ex_wf : wf_hist (genesis_world ex_gen) (history_of ex_ops).
 Proof. exact ex_wf. Qed.
+Example C08_ex_lands : lands_ok (init ex_cfg ex_gen) ex_ops = true.
+Proof. exact ex_lands. Qed.
 Example C08_ex_enabled : enabled_run (init ex_cfg ex_gen) ex_ops.
 Proof. exact ex_enabled. Qed.
 Example C08_ex_window :
